@@ -131,6 +131,8 @@ Record request := {
   q_host : string;                      (* Host field *)
   q_headers : list (string * string);   (* the other field lines, as sent (any casing), in order *)
   q_body : string;
+  q_fault : bool;                       (* the body does not arrive intact: the chunk framing breaks after some good chunks, or the
+                                           connection ends before the announced length / the last chunk ([q_body] is what was meant) *)
   q_tls : bool;                         (* the connection to heimdall is TLS (req.TLS != nil) *)
   q_peer : string;                      (* address of the peer as httpx.IPFromHostPort renders it *)
   q_trusted : bool;                     (* oracle: the peer is in trusted_proxies *)
@@ -335,6 +337,8 @@ Definition serve (fx : fixes) (q : request) (pl : pipeline) (r : rule) : outcome
       let tls_wanted := String.eqb (u_scheme t) "https" in
       if negb (String.eqb (u_scheme t) "http" || tls_wanted) then NotForwarded 502
       else if negb (Bool.eqb tls_wanted (r_up_tls r)) then NotForwarded 502
+      else if q_fault q then NotForwarded 502   (* the read error of the client's body aborts the upstream request,
+                                                   whether or not the pipeline looked at the body before *)
       else
         let '(host, h) := rewrite_request fx q pl (u_host t) in
         let m := view_method q in
